@@ -214,7 +214,9 @@ func HChildKeys() {
 		vr.Assert("c08.slice.ar2i"+tag, vr.EqBytes(c.ResponderToInitiatorIntegrityKey, ks[2*le+la:2*le+2*la]))
 	}
 	c1 := mk()
-	err := c1.GenerateKeyForChildSA(ike, append([]byte{}, nonce...))
+	gn := vGuarded(nonce)
+	err := c1.GenerateKeyForChildSA(ike, gn[:ln])
+	vr.Assert("c08.nonce-untouched", vGuardIntact(gn, nonce))
 	vr.Assert("c08.noerr", err == nil)
 	if err != nil {
 		return
